@@ -120,6 +120,127 @@ def mixed_state_events(ctx):
     return ev
 
 
+PASSC = {'p1': 'component pass one', 'p2': 'component pass two'}
+
+
+def component_histories(ctx):
+    """G + V binding for KeyProtectC.tla: one shortest history to every state of the component-level specification (plus TLC-simulated
+    walks), executed on a real key - primary P (certify only), signing subkey S, a freshly generated signing subkey N added by the
+    history - and validated step by step by Trace_KeyProtC. Returns (traces, recover events for Trace_Recover)."""
+    pgpy = import_pgpy()
+    from pgpy.constants import SymmetricKeyAlgorithm, HashAlgorithm, KeyFlags
+    g = ctx.model('Gen_KeyProtectC', workers=1)
+    behs = sorted({tuple(tuple(x) for x in p[1]) for p in g.prints if isinstance(p, list) and p and p[0] == 'BEH'}, key=lambda b: (len(b), b))
+    if len(behs) < 400:
+        raise MachineryError('Gen_KeyProtectC produced %d histories' % len(behs))
+    sim = ctx.model('Gen_KeyProtectC', 'Gen_KeyProtectCSim', simulate='num=%d' % (60 if ctx.quick else 1500), depth=14, seed=ctx.seed + 3, workers=1)
+    walks = sorted({tuple(tuple(x) for x in p[1]) for p in sim.prints if isinstance(p, list) and p and p[0] == 'BEH' and len(p[1]) >= 9})
+    # of the simulated walks keep the maximal ones
+    walks = [w for w in walks if not any(len(o) > len(w) and o[:len(w)] == w for o in walks)]
+    other = K.new_key('ed25519', name='Component Other', email='co@x.org')
+    base = K.new_key('ed25519', name='Components', email='comp@x.org', usage={KeyFlags.Certify}, subs=[('ed25519', {KeyFlags.Sign})])
+    base_blob = bytes(base)
+
+    def secret_of(keyobj):
+        body = next(b for t_, b, r_ in build.read_packets(bytes(keyobj)) if t_ in (5, 7))
+        return bytes(body[build.pub_portion_len(body) + 1:-2])
+    traces, recs = [], []
+    saved = keylife.fast_s2k()
+    try:
+        for beh in behs + walks:
+            with warnings.catch_warnings():
+                warnings.simplefilter('ignore')
+                k = pgpy.PGPKey.from_blob(base_blob)[0]
+                pub = pgpy.PGPKey.from_blob(bytes(k.pubkey))[0]
+                comps = {'P': k, 'S': list(k.subkeys.values())[0], 'N': None}
+                orig = {'P': secret_of(k), 'S': secret_of(comps['S'])}
+                scopes = []
+                tr = []
+                for act in beh:
+                    last = '-'
+                    try:
+                        if act[0] == 'protect':
+                            k.protect(PASSC[act[1]], SymmetricKeyAlgorithm.AES128, HashAlgorithm.SHA256)
+                        elif act[0] == 'protectsub':
+                            comps[act[1]].protect(PASSC[act[2]], SymmetricKeyAlgorithm.AES128, HashAlgorithm.SHA256)
+                        elif act[0] == 'unlock':
+                            cm = k.unlock(PASSC[act[1]])
+                            try:
+                                cm.__enter__()
+                                scopes.append(cm)
+                            except Exception:
+                                pass                      # a wrong passphrase: no block is entered
+                        elif act[0] == 'exit':
+                            scopes.pop().__exit__(None, None, None)
+                        elif act[0] == 'addsub':
+                            n_ = K.raw_key('ed25519', K.T0 + 40)
+                            osec = secret_of(n_)
+                            orig['N'] = osec
+                            try:
+                                k.add_subkey(n_, usage={KeyFlags.Sign}, created=K.ts(K.T0 + 41))
+                                comps['N'] = n_
+                                pub = pgpy.PGPKey.from_blob(bytes(k.pubkey))[0]
+                                last = 'ok'
+                            except Exception:
+                                last = 'refused'
+                        elif act[0] in ('certify', 'sign', 'signby'):
+                            try:
+                                if act[0] == 'certify':
+                                    s_ = k.certify(other.userids[0], created=K.ts(K.T0 + 50))
+                                    good = bool(pub.verify(other.userids[0], s_))
+                                else:
+                                    s_ = (k if act[0] == 'sign' else comps[act[1]]).sign('component text', created=K.ts(K.T0 + 50))
+                                    good = bool(pub.verify('component text', s_))
+                                last = 'ok' if good else 'garbage'
+                            except Exception:
+                                last = 'refused'
+                    except MachineryError:
+                        raise
+                    except Exception as ex:
+                        tr.append({'act': list(act), 'obs': {'st': {'P': 'raised', 'S': 'raised', 'N': 'raised'}, 'last': 'raised'}, 'exc': repr(ex)[:100]})
+                        break
+                    # what the KEY holds decides which components are there (a refused add_subkey must not leave one behind)
+                    subs_now = list(k.subkeys.values())
+                    comps['N'] = subs_now[1] if len(subs_now) > 1 else None
+                    st = {}
+                    for c, o in comps.items():
+                        st[c] = 'absent' if o is None else ('clear' if not o.is_protected else ('open' if o.is_unlocked else 'locked'))
+                    tr.append({'act': list(act), 'obs': {'st': st, 'last': last}})
+                # at the end: is every secret still recoverable (in the clear for unprotected components, under ONE of the passphrases otherwise)?
+                if tr and 'exc' not in tr[-1]:
+                    rec = {}
+                    try:
+                        bodies = [b for t_, b, r_ in build.read_packets(bytes(k)) if t_ in (5, 7)]
+                    except Exception:
+                        bodies = []
+                    for c, pb in zip(['P', 'S', 'N'], bodies):
+                        p_ = build.pub_portion_len(pb)
+                        if pb[p_] == 0:
+                            rec[c] = 'clear-ok' if bytes(pb[p_ + 1:-2]) == orig[c] else 'lost'
+                            continue
+                        rec[c] = 'lost'
+                        for pn, pw in PASSC.items():
+                            r = independent_recovery('component history %s: %s under %s' % (len(traces), c, pn), pb, orig[c], pw)
+                            if not r['failed'] and r['pt'][-20:] == r['sha1_all_but_last_20']:
+                                rec[c] = pn
+                                if len(recs) < 400:
+                                    recs.append(r)
+                                break
+                    for c in ('P', 'S', 'N'):
+                        rec.setdefault(c, 'absent')
+                    tr[-1]['obs']['rec'] = rec
+                for cm in reversed(scopes):
+                    try:
+                        cm.__exit__(None, None, None)
+                    except Exception:
+                        pass
+            traces.append(tr)
+            ctx.case(('component-history', beh))
+    finally:
+        keylife.restore_s2k(saved)
+    return traces, recs
+
+
 def recover_events(ctx):
     """independent recovery from PGPy's protected export + foreign protected forms."""
     pgpy = import_pgpy()
@@ -281,7 +402,40 @@ def run(ctx):
         b = t['behaviour'][:step]
         ctx.violation(clause, 'alg=%s last-action=%s' % (t['meta']['alg'], b[-1][0]), {'behaviour': b, 'obs': {k: v for k, v in t['events'][step - 1]['obs'].items() if k not in ('privblob', 'pub', 'priv_uids')},
                                                                                            'raised': t['events'][step - 1]['raised']})
-    rev = recover_events(ctx) + mixed_state_events(ctx)
+    # component-level protection states (KeyProtectC.tla): the design and its three as-found switches, then G + V on real keys
+    rc = ctx.model('MC_KeyProtectC', coverage=True)
+    for act in ('ProtectKey', 'ProtectSub', 'Unlock', 'ScopeExit', 'AddSub', 'Certify', 'Sign', 'SignBy'):
+        if rc.coverage.get(act, (0, 0))[1] == 0:
+            raise MachineryError('KeyProtectC action %s never taken' % act)
+    for mcfg in ('MC_KeyProtectC_wipe', 'MC_KeyProtectC_protectlocked', 'MC_KeyProtectC_checkcaller'):
+        ctx.model('MC_KeyProtectC', mcfg, must_hold=False)
+    ctraces, crecs = component_histories(ctx)
+    rcv = ctx.trace('Trace_KeyProtC', {'traces': ctraces}, name='component-histories')
+    done = [p_ for p_ in rcv.prints if isinstance(p_, list) and p_ and p_[0] == 'DONE']
+    if not done or done[-1][1] != len(ctraces):
+        raise MachineryError('Trace_KeyProtC did not reach the end of the batch: %s' % rcv.raw[-1500:])
+    crej = [p_ for p_ in rcv.prints if isinstance(p_, list) and p_ and p_[0] == 'REJECT']
+    ctx.traces += len(ctraces) - len(crej)
+    ctx.extra['component_histories'] = len(ctraces)
+    for p_ in crej:
+        tid_, clause_, step_ = p_[1], p_[2], p_[3]
+        tr_ = ctraces[tid_ - 1]
+        if clause_.startswith('harness'):
+            raise MachineryError('Trace_KeyProtC: %s at step %d of %s' % (clause_, step_, [e_['act'] for e_ in tr_]))
+        ctx.violation(clause_, 'component history, last action %s' % tr_[step_ - 1]['act'][0], {'history': [e_['act'] for e_ in tr_[:step_]], 'obs': tr_[step_ - 1]['obs'], 'exc': tr_[step_ - 1].get('exc')})
+    if not crej:
+        # binding demonstration: corrupt recorded fields of accepted histories; every copy must be rejected
+        import copy as _copy
+        longest = sorted(ctraces, key=len)[-3:]
+        cor = []
+        c_ = _copy.deepcopy(longest[0]); c_[-1]['obs']['st']['S'] = 'open' if c_[-1]['obs']['st']['S'] != 'open' else 'locked'; cor.append(c_)
+        c_ = _copy.deepcopy(longest[1]); c_[-1]['obs']['rec']['P'] = 'lost'; cor.append(c_)
+        c_ = _copy.deepcopy(next(t_ for t_ in ctraces if t_[-1]['obs']['last'] == 'refused')); c_[-1]['obs']['last'] = 'garbage'; cor.append(c_)
+        rs = ctx.trace('Trace_KeyProtC', {'traces': cor}, name='component-selftest')
+        nrej = len([p_ for p_ in rs.prints if isinstance(p_, list) and p_ and p_[0] == 'REJECT'])
+        if nrej != len(cor):
+            raise MachineryError('Trace_KeyProtC accepted a corrupted history (%d of %d rejected)' % (nrej, len(cor)))
+    rev = recover_events(ctx) + mixed_state_events(ctx) + crecs
     for e in rev:
         ctx.case((e['k'], e['label']))
     ctx.sample({k: v for k, v in rev[0].items() if k not in ('body', 'pt', 'orig_secret')})
